@@ -388,7 +388,7 @@ pub fn run(eng: &mut Engine) {
     eng.prop_part(
         "sets",
         "generated leaf sets (1-3 random bases + copies with bit p flipped and same/zero/one/random tails, inserted over 1-3 epochs); queries = every member, every member with generated bits flipped, random labels; candidates = akd's honest proofs, non-membership anchored at EVERY path node, membership of every path node, 15+ mutations, previous-epoch material; oracle = soundness + completeness vs the set; non-trivial = a mis-anchored (shallow) candidate on a path of depth >=3 was evaluated; distinct by leaf set",
-        eng.tier.pick(20_000, 300_000),
+        eng.tier.pick(20_000, 120_000),
         || strategy(thorough),
         check,
     );
